@@ -47,6 +47,9 @@ func c19SeqCheck(cs c19Case) (clause, detail string) {
 		end = seq.EndReset
 	}
 	out := srv.RunConn(s, seq.NewConn(seq.Script{Input: cs.Input, End: end, FailWriteFrom: cs.FailWrite, CloseErr: cs.CloseErr}))
+	if out.Deadlock != "" {
+		return "goroutine-not-ended", "the connection goroutine blocks forever: " + out.Panic
+	}
 	if out.Panic != "" || out.Spin != "" {
 		return "", "" // C07
 	}
@@ -160,7 +163,7 @@ func (w *c19World) ending(mode string, step int) {
 	plain := ":6379"
 	tlsAddr := ":6380"
 	switch mode {
-	case "eof-boundary", "eof-mid-request", "reset", "quit", "malformed", "stop-reading-then-reset":
+	case "eof-boundary", "eof-mid-request", "reset", "quit", "malformed", "stop-reading-then-reset", "nested-request-then-eof":
 		cl, o := sched.Dial(plain)
 		if o.Status != "ok" {
 			w.fail("dial-refused", fmt.Sprintf("ending #%d (%s): plain dial refused", step, mode))
@@ -184,6 +187,12 @@ func (w *c19World) ending(mode string, step int) {
 		case "malformed":
 			cl.Send([]byte("*2\r\n$3\r\nGET\r\n?oops\r\n"))
 			cl.Recv()
+		case "nested-request-then-eof":
+			// a request whose first element is itself an array (whatever the server
+			// makes of it, the connection must still end cleanly)
+			cl.Send([]byte("*1\r\n*1\r\n$4\r\nPING\r\n"))
+			vrt.WaitQuiet()
+			cl.Close()
 		case "stop-reading-then-reset":
 			raw.Capacity = 8
 			for i := 0; i < 6; i++ {
@@ -493,6 +502,10 @@ func c19Run(c *fw.Ctx) {
 		for bg := 0; bg <= 1; bg++ {
 			races = append(races, c19Case{Kind: "sched", Background: bg, StopRace: race, Endings: []string{"stop:" + race}})
 		}
+	}
+	for bg := 0; bg <= 1; bg++ {
+		len12 = append(len12, c19Case{Kind: "sched", Background: bg, Endings: []string{"nested-request-then-eof"}, StopAtEnd: true},
+			c19Case{Kind: "sched", Background: bg, Endings: []string{"nested-request-then-eof", "quit"}, StopAtEnd: bg == 0})
 	}
 	for n := 1; n <= 3; n++ {
 		for _, endings := range seqsOf(n) {
